@@ -71,6 +71,7 @@ def run(ctx, R):
     submit_writes(F, R)
     table_writers(F, R)
     removal_leaves_a_priority_zero_entry(F, R)
+    closing_bounds(F, R)
     R.rule("RF9 specifier/priority/protected-atom tables; RF3 validators before '$op'; RF10 op_declaration; RF1 priority-0 filter; RF3 direct-lookup guard")
     text = open(os.path.join(REPO, "src/lib/builtins.pl")).read()
     cl = {}
@@ -327,3 +328,52 @@ def removal_leaves_a_priority_zero_entry(F, R):
          "OpDecl::remove %s: removal is a priority-0 entry stored through the ordinary insertion (the table's readers filter priority 0, and the reader needs the entry of a removed "
          "prefix minus to read negative literals)" % ("deletes from the table (%s)" % deletes if deletes else "does not store priority 0 through the insertion"), F.where(rm))
 
+
+
+ARG_MAX = 999  # ISO 6.3.3.1: an argument of a compound term, and (6.3.5) an element of a list, has priority at most 999
+
+
+def closing_bounds(F, R):
+    """"The reader then parses according to that table": at the end of an argument (reduce_term) and of a list element
+    (reduce_list) the parser reduces what is on its stack with reduce_op(K). Whether an operator of priority p is reduced
+    there is decided by two cooperating sites: K at the call and the comparison of the operator's priority with that
+    bound in its affirm_* function (strict for the right-associative xfy/fy, because the same function serves an incoming
+    operator of equal priority, which must shift). The rule evaluates that admission test at the boundary: an operator
+    of every kind at exactly ARG_MAX must be admitted at both closes, and the comma (xfy at ARG_MAX + 1) must not be."""
+    cmpop = {}
+    for kind in ("xfx", "yfx", "xfy", "fy", "fx"):
+        p = F.find("parser::parser::affirm_" + kind)
+        ops = [n["op"] for n in walk(F.hir(p)["body"]) if n["k"] == "Binary" and n["op"] in ("Lt", "Le")
+               and n["a"]["k"] == "Field" and n["a"]["name"] == "priority" and (n["a"]["base"].get("res") or {}).get("local") == "d2"
+               and n["b"]["k"] == "Path" and (n["b"].get("res") or {}).get("local") == "priority"]
+        if len(ops) != 1:
+            raise AnchorLost("affirm_%s: comparison of d2.priority with the bound: %s" % (kind, ops))
+        cmpop[kind] = ops[0]
+
+    def admitted(kind, p, k):
+        return p < k if cmpop[kind] == "Lt" else p <= k
+
+    n = 0
+    for site in ("reduce_term", "reduce_list"):
+        ps = F.find_all(r"parser::parser::Parser::<.*>::%s$" % site)
+        if len(ps) != 1:
+            raise AnchorLost("Parser::%s: %s" % (site, ps))
+        ks = [c["args"][0] for c in walk(F.hir(ps[0])["body"]) if c["k"] == "MethodCall" and c["name"] == "reduce_op"]
+        if len(ks) != 1 or ks[0]["k"] != "Lit":
+            raise AnchorLost("Parser::%s: one reduce_op(<literal>) expected, found %d" % (site, len(ks)))
+        k = int(ks[0]["lit"]["int"])
+        what = {"reduce_term": "the last argument of a compound term", "reduce_list": "the last element of a list"}[site]
+        for kind in sorted(cmpop):
+            n += 1
+            R.ob("C43:reader:%s:%s-at-%d-admitted" % (site, kind, ARG_MAX), admitted(kind, ARG_MAX, k),
+                 "Parser::%s reduces with reduce_op(%d) and affirm_%s compares the operator's priority with `%s` the bound: a%s operator declared %s at %d "
+                 "is %s as %s (op(%d, %s, o): the text %s)" % (
+                     site, k, kind, "<" if cmpop[kind] == "Lt" else "<=", "n" if kind[0] == "x" else "", kind, ARG_MAX,
+                     "reduced" if admitted(kind, ARG_MAX, k) else "NOT reduced, so the term is a syntax error", what, ARG_MAX, kind,
+                     ("f(o a)" if site == "reduce_term" else "[o a]") if kind in ("fy", "fx") else ("f(a o b)" if site == "reduce_term" else "[a o b]")),
+                 F.where(ps[0]))
+        n += 1
+        R.ob("C43:reader:%s:comma-not-reduced" % site, not admitted("xfy", ARG_MAX + 1, k),
+             "Parser::%s reduces with reduce_op(%d): the comma (xfy at %d) %s" % (site, k, ARG_MAX + 1, "stays a separator" if not admitted("xfy", ARG_MAX + 1, k) else "would be reduced as an operator inside " + what),
+             F.where(ps[0]))
+    R.floor("closing-bound admission tests", n, 12)
